@@ -123,6 +123,20 @@ async def main():
         await pu(M.PrivilegedUsers.Response(['eve']), conn)
         if bob.privileged or not eve.privileged:
             return True, f'after PrivilegedUsers([bob, eve]) then ([eve]): bob.privileged={bob.privileged}, eve.privileged={eve.privileged}', None
+        # ONE user object per name: what a status / statistics notification says about a user is seen through every room the user is in
+        # and through get_user_object - also by whoever took the object earlier
+        client = make_client(tmp, ME)
+        conn = client.network.server_connection
+        held = client.users.get_user_object('bob')
+        await client.rooms._MESSAGE_MAP[M.UserJoinedRoom.Response](M.UserJoinedRoom.Response('pub', 'bob', 2, STATS, 1, 'NL'), conn)
+        await client.users._MESSAGE_MAP[M.GetUserStatus.Response](M.GetUserStatus.Response('bob', 1, True), conn)
+        await client.users._MESSAGE_MAP[M.GetUserStats.Response](M.GetUserStats.Response('bob', UserStats(9, 8, 7, 6)), conn)
+        views = {'held before': held, 'get_user_object': client.users.get_user_object('bob'),
+                 'room.users': next((u for u in client.rooms.rooms['pub'].users if u.name == 'bob'), None)}
+        bad = {k: (None if v is None else (v.status.name, v.privileged, v.avg_speed)) for k, v in views.items()
+               if v is None or (v.status.value, v.privileged, v.avg_speed) != (1, True, 9)}
+        if bad:
+            return True, f'after UserJoinedRoom(pub, bob), GetUserStatus(bob, away, privileged), GetUserStats(bob, speed 9): stale views (status, privileged, speed) {bad}', {'scenario': 'one user object'}
     return False, '', None
 
 c, what, inp = run(main(), timeout=120)
